@@ -38,3 +38,48 @@ def hunt(check, runs_per_n=2):
                       "`lbzip2 -dc -n%d` (%s build) rc=%s, output %s the plain text (%d of %d runs bad): %s" % (
                           n, fl, rc, "equals" if same else "differs from", len(bad), len(jobs), err[-200:].replace("\n", " | ")),
                       {"generator": "harness/f9gen.py build()", "n": n, "flavor": fl, "rc": rc, "stderr": err, "kind": "f9"})]
+
+
+def ring_wrap_hunt(check):
+    """order_q / the other fixed-capacity ring buffers of process.h wrap around after `capacity` elements (order_q: 17n blocks).
+    Files with more blocks than that, every block needing several output buffers (small out_granul through hook H2, and once
+    naturally: blocks that expand to more than 900000 bytes), few workers: the continuation entry of a multi-buffer block is put
+    back with unshift() exactly when head == 0."""
+    import bz2
+    rng = check.rng
+    exe = vlib.build_lbzip2("rel")
+    files = []
+    # (a) 80 small blocks in one stream each (python bz2 makes one block per call here), tiny output buffers
+    plain, comp = b"", b""
+    for i in range(80):
+        d = bytes(rng.below(7) + 97 for _ in range(2500 + rng.below(500)))
+        plain += d
+        comp += bz2.compress(d, 1)
+    files.append(("80 one-block streams, out_granul 700", comp, plain, {"LBZIP2_VERIF_OUT_GRANUL": "700"}))
+    # (b) one stream with 40 blocks of level 1 (100000 RLE bytes each), out_granul 30000
+    d = bytes(rng.below(256) for _ in range(4_000_000))
+    files.append(("one stream of 40 level-1 blocks, out_granul 30000", bz2.compress(d, 1), d, {"LBZIP2_VERIF_OUT_GRANUL": "30000"}))
+    if check.tier != "quick":
+        # (c) no hooks: 40 blocks that each expand to ~1 MB (runs of 50 equal bytes), shipped buffer size
+        d = b"".join(bytes([rng.below(256)]) * 50 for _ in range(20000 * 40))
+        files.append(("40 blocks expanding to 1 MB each, shipped sizes", bz2.compress(d, 1), d, {}))
+    jobs = [(f, n) for f in files for n in (1, 2, 3)]
+
+    def one(j):
+        (name, comp, plain, env), n = j
+        e = {"LBZIP2": "", "BZIP2": "", "BZIP": ""}
+        e.update(env)
+        rc, out, err = vlib.shb([exe, "-dc", "-n%d" % n], env=e, timeout=60, input=comp)
+        return rc, out == plain, (err.decode("latin-1") if isinstance(err, bytes) else str(err))[-300:]
+    with ThreadPoolExecutor(max_workers=4) as ex:
+        res = list(ex.map(one, jobs))
+    bad = [(j, r) for j, r in zip(jobs, res) if r[0] != 0 or not r[1]]
+    check.notes.append("ring-buffer wrap hunt: %d runs (%s), %d bad" % (len(jobs), "; ".join(f[0] for f in files), len(bad)))
+    if not bad:
+        return []
+    ((name, comp, plain, env), n), (rc, same, err) = bad[0]
+    return [Violation("c11x:ring-buffer-wrap",
+                      "valid input (%s): `%s lbzip2 -dc -n%d` rc=%s%s, output %s the plain text (%d of %d runs bad) %s" % (
+                          name, " ".join("%s=%s" % kv for kv in env.items()), n, rc, " (watchdog: hang)" if rc == 124 else "",
+                          "equals" if same else "differs from", len(bad), len(jobs), err[-150:].replace("\n", " | ")),
+                      {"input_hex": comp.hex()[:3000000], "env": env, "n": n, "rc": rc, "kind": "ringwrap"})]
